@@ -6,6 +6,7 @@ import (
 	"strings"
 
 	"verif/harness/app"
+	"verif/harness/codec"
 	"verif/harness/specvm"
 	"verif/harness/vk"
 )
@@ -28,6 +29,7 @@ func C01() *vk.Check {
 }
 
 func runC01(c *vk.Ctx) {
+	c01EchoedInput(c)
 	cnt := func(name string, v int64) { c.Count(name, v) }
 	n := c.N(2400, 100000)
 	for i := 0; i < n; i++ {
@@ -249,6 +251,46 @@ func runC01(c *vk.Ctx) {
 				if b != nil {
 					b.Cleanup()
 				}
+			}
+		}
+	}
+}
+
+// c01EchoedInput: the catch page echoes what the client sent ("invalid input: '<input>'"). Inputs that are valid for
+// the input format but look like template syntax, format verbs or are long are echoed at every output size from 1
+// to 140: whatever Flush hands out must fit (an error instead of a page is fine).
+func c01EchoedInput(c *vk.Ctx) {
+	if !c.Mine(7) || !c.Want("echo") {
+		return
+	}
+	c.Begin("echo")
+	a := app.NewApp()
+	a.FlagCount = 1
+	a.AddNode(&app.Node{Name: "root", Template: "welcome", Code: []codec.Ins{{Op: codec.MOUT, S1: "go", S2: "1"}, {Op: codec.HALT}, {Op: codec.INCMP, S1: "sub", S2: "1"}}})
+	a.AddNode(&app.Node{Name: "sub", Template: "sub page", Code: []codec.Ins{{Op: codec.MOUT, S1: "back", S2: "0"}, {Op: codec.HALT}, {Op: codec.INCMP, S1: "_", S2: "0"}}})
+	a.AddNode(&app.Node{Name: "_catch", Template: "that did not work", Code: []codec.Ins{{Op: codec.MOUT, S1: "back", S2: "0"}, {Op: codec.HALT}, {Op: codec.INCMP, S1: "_", S2: "*"}}})
+	a.Finalize()
+	inputs := []string{"1{{", "a}}{{", "x{{.foo}}", "2{{/*", "7%s%d", "9\\n", "z" + strings.Repeat("{", 30), "q" + strings.Repeat("w", 60), "5 {{ 5", "no"}
+	for size := uint32(1); size <= 140; size++ {
+		for _, in := range inputs {
+			cfg := app.Config{OutputSize: size, FlagCount: 1, SessionId: "echo", Root: "root"}
+			ll := app.NewLongLived(a, cfg)
+			ll.Request([]byte(""))
+			o := ll.Request([]byte(in))
+			ll.Close()
+			c.EvalN(1, 1)
+			c.Count("echoed_input_requests", 1)
+			if o.Out != "" {
+				c.Count("echoed_input_pages_delivered", 1)
+			}
+			if o.Panic != "" {
+				c.Count("echoed_input_panics(C08)", 1)
+				continue
+			}
+			if uint32(len(o.Out)) > size {
+				c.Violate("engine:oversize:echoed-input", fmt.Sprintf("OutputSize %d, input %q refused by the node: Flush hands out %d bytes (%q), error %q", size, in, len(o.Out), o.Out, o.FlushErr), "echo",
+					map[string]interface{}{"size": size, "input": in, "app": a.Describe()})
+				return
 			}
 		}
 	}
